@@ -437,6 +437,80 @@ class Lit:
                     gN(o["extra"]))
 
 
+
+# ------------------------------------------------------------------ composition with C01 (second pass)
+# C15_tracked_programs_valid (coq/props/C15.v) carries C01's validity theorem over to the tracked builder.  Its
+# premises and its conclusion are evaluated (coq/run/C15ValidRun.v) on the tracked-builder programs of C01's own
+# generator (harness/progs.py gen_tracked_program), run on the real TrackedDfg: the theorem must speak about what is
+# generated there, and the document hugr-py serialises must be the one the composed models produce.
+
+def tdfg_to_c15(p):
+    """A tracked-builder program of harness/progs.py -> {"tys", "track", "prog" (C15's language), "ops" (operation
+    description of every added node in creation order)}; None when it uses a call outside the fragment of the
+    theorem (load) or does not end with its only set_*_outputs."""
+    sts = p["stmts"]
+    if not sts or sts[-1]["k"] != "tout" or any(s["k"] == "tout" for s in sts[:-1]):
+        return None
+    if any(s["k"] not in ("tadd", "track", "untrack", "tout") for s in sts):
+        return None
+    wires = {w: (0, j) for j, w in enumerate(p["in_wires"])}
+    track = bool(p.get("track_inputs", True))
+    table = [(0, j) for j in range(len(p["ins"]))] if track else []
+    prog, ops, cnt = [], [], 0
+    if not track:
+        for w in p.get("track_these", []):
+            prog.append(["track_wire", list(wires[w])])
+            table.append(wires[w])
+
+    def A(args):
+        return [a[1] if a[0] == "i" else list(wires[a[1]]) for a in args]
+    for st in sts:
+        k = st["k"]
+        if k == "tadd":
+            op = st["op"]
+            if op[0] != "custom":
+                return None
+            spec = ["custom", len(op[2]), len(op[3]), op[1] + ":" + json.dumps([op[2], op[3]])]
+            args = A(st["args"])
+            n = 2 + cnt
+            cnt += 1
+            ops.append(op)
+            if st.get("via") == "extend":
+                prog.append(["extend", [[spec, args]]])
+            else:
+                prog.append(["add", spec, st.get("md"), args])
+            for j, a in enumerate(st["args"]):
+                if a[0] == "i":
+                    table[a[1]] = (n, j)
+            for j, w in enumerate(st["outs"]):
+                if w is not None:
+                    wires[w] = (n, j)
+        elif k == "track":
+            prog.append(["track_wire", list(wires[st["w"]])])
+            table.append(wires[st["w"]])
+        elif k == "untrack":
+            wires[st["out"]] = table[st["idx"]]
+            table[st["idx"]] = None
+            prog.append(["untrack", st["idx"]])
+        else:
+            prog.append(["set_tracked_outputs"] if st["mode"] == "tracked" else ["set_indexed_outputs", A(st["args"])])
+    return {"tys": p["ins"], "track": track, "prog": prog, "ops": ops}
+
+
+def tdfg_literal(L, p, t):
+    """the TCase literal of coq/run/C15ValidRun.v: runs p on the real TrackedDfg (through C01's interpreter), takes
+    the document it serialises and interns the types of the program in the document's type table"""
+    from props import c01
+    d1, _ = c01.build_docs(p)
+    c = c01.conv_doc(c01.strip_doc(d1))
+    tab = c["tab"]
+    ins = [tab.ty(c01.ser_ty(x)) for x in t["tys"]]
+    specs = [gapp("OFixed", c01.grow([tab.ty(c01.ser_ty(x)) for x in op[2]]),
+                  c01.grow([tab.ty(c01.ser_ty(x)) for x in op[3]])) for op in t["ops"]]
+    tab.recompute_copy()
+    return gapp("TCase", c01.gtab(tab), c01.grow(ins), glist(specs), gbool(t["track"]),
+                glist(L.cmd(x) for x in t["prog"]), c01.ggraph(c["main"]))
+
 # ------------------------------------------------------------------ generator
 
 META_KEYS = ["name", "loc", "k", "unicode-é", ""]
@@ -866,6 +940,65 @@ class C15(fw.Prop):
             cut = rng.randint(0, len(c["prog"]))
             c["prog"] = c["prog"][:cut] + extra[: rng.randint(1, 4)]
             out.append(c)
+        return out
+
+    def extra(self, ctx, tier):
+        """C15 x C01: the premises (tprem) and the conclusion against the real TrackedDfg (ttie, tvalid) of
+        C15_tracked_programs_valid on the tracked-builder programs of C01's generator."""
+        import random
+        import progs
+        from props import c01
+        out = []
+        ok, log = fw.coq_build(["run/C15ValidRun.vo"])
+        if not ok:
+            return [("composition-run-file", "coq/run/C15ValidRun.v does not build", {"log": log[-1500:]})]
+        bad = fw.forbidden_gate(fw.coq_closure("run/C15ValidRun.v"))
+        if bad:
+            return [("composition-run-file", "forbidden construct in the closure of run/C15ValidRun.v", {"bad": bad[:5]})]
+        rng = random.Random(ctx.seed * 7907 + 15)
+        n = 150 if tier == "quick" else 1500
+        progs_ = [("named:" + k, v) for k, v in sorted(c01.NAMED.items()) if v.get("root") == "tdfg"]
+        for _ in range(n):
+            seed = rng.randrange(1 << 30)
+            progs_.append((seed, progs.gen_tracked_program(random.Random(seed))))
+        lits, meta, outside, raised = [], [], 0, 0
+        for seed, p in progs_:
+            t = tdfg_to_c15(p)
+            if t is None:
+                outside += 1
+                continue
+            try:
+                lits.append(tdfg_literal(self.L, p, t))
+            except c01.ConvError:
+                raise
+            except Exception as e:      # the builders raised on a program C01's generator believes well formed
+                raised += 1
+                continue
+            meta.append((seed, p, t))
+        st = {"generated": len(progs_), "outside_fragment(load)": outside, "builders_raised": raised, "evaluated": len(lits)}
+        if lits:
+            res = fw.eval_cases(ctx.work, "run.C15ValidRun", lits, shard=40, checks=("tprem", "ttie", "tvalid", "tcircuit"),
+                                tag="tvalid", case_type="tcase")
+            st["premises_hold"] = len(lits) - len(res["tprem"])
+            st["pure_circuits(premise of C15_circuits_valid)"] = len(lits) - len(res["tcircuit"])
+            for i in res["tprem"][:3]:
+                out.append(("premise-not-met", "a tracked-builder program of C01's generator inside the fragment does "
+                            "not satisfy the premises of C15_tracked_programs_valid (the theorem would not speak about it)",
+                            {"failing_input": {"seed": meta[i][0]}, "signature": "composition:premise-not-met",
+                             "program": meta[i][1], "c15_program": meta[i][2]}))
+            for i in res["tvalid"][:3]:
+                out.append(("tracked-document-invalid", "the document a real TrackedDfg serialised is rejected by the "
+                            "validity predicate", {"failing_input": {"seed": meta[i][0]}, "signature": "composition:invalid",
+                                                   "program": meta[i][1], "c15_program": meta[i][2]}))
+            for i in [j for j in res["ttie"] if j not in res["tvalid"]][:3]:
+                out.append(("tracked-document-differs", "the document a real TrackedDfg serialised is not the one C01's "
+                            "builder model produces from the explicit translation / not the tracked model's HUGR",
+                            {"failing_input": {"seed": meta[i][0]}, "signature": "composition:document-differs",
+                             "program": meta[i][1], "c15_program": meta[i][2]}))
+        if len(lits) < len(progs_) // 4:
+            out.append(("composition-sample-too-small", "fewer than a quarter of the generated tracked programs are in "
+                        "the fragment of C15_tracked_programs_valid", dict(st)))
+        ctx.stats["composition_with_C01"] = st
         return out
 
     def distribution(self, cases, observations):
